@@ -1,6 +1,7 @@
 import Mpd.Command
 import MpdSpec.Tokenizer
 import MpdProofs.Lemmas.Tok
+import MpdProofs.Lemmas.Utf8
 /-!
 # C07 — user-supplied strings can never add a request line or change list framing
 
@@ -339,5 +340,15 @@ example : ∀ c ∈ [str "status", str "play 1", str "stop"], Reachable c := by
 example : splitLines (renderList (str "status") [str "play 1", str "stop"]) =
     some [str "command_list_ok_begin", str "status", str "play 1", str "stop", str "command_list_end"] := by
   decide
+
+/-! ## `validate_command_part` iterates `char_indices()`: the bytewise model agrees on every string -/
+
+theorem C07_name_check_is_charwise (cs : List Nat) (h : ∀ c ∈ cs, Utf8.isScalar c = true) :
+    validateCommandPart (Utf8.encodeStr cs) = Utf8.validateCommandPartC cs :=
+  Utf8.validateCommandPart_encode cs (Utf8.chars_of_scalar cs h)
+
+/-- non-vacuity: `stätus` is refused at byte offset 2, `é` at 0 -/
+example : Utf8.validateCommandPartC [115, 116, 228, 116, 117, 115] = .error (.invalidChar 2) ∧
+    Utf8.validateCommandPartC [233] = .error (.invalidChar 0) := by decide
 
 end Mpd.C07
